@@ -23,7 +23,7 @@ META = {
             "evaluated on the model file system of sa/fsmodel.py against a dictionary: after every step the store lists exactly the "
             "dictionary's keys (iteration, membership), reads return the value stored last element by element or raise for an absent "
             "point, items() yields everything and leaves nothing loaded, re-opening loses nothing. (5) EKO.approx is partially evaluated on "
-            "concrete stores covering every ordering (same/different nf at equal scale, scales inside/outside tolerance): it "
+            "concrete stores covering every ordering (same/different nf at equal scale, scales inside tolerance, 1.5 tolerances away and far, for a relative and for an absolute tolerance ON THE mu^2 KEYS): it "
             "returns the unique point within tolerance with the query's nf, None, or raises when ambiguous."
             " Histories include the operation 'change a looked-up operator in place and assign the same object again'.",
     "note": "The equivalence with a dictionary model is decided for every history up to the stated length over two evolution points "
@@ -171,37 +171,39 @@ def rest(chk, src, pe, cls, fset, fdel, fget, defs, sites):
             chk.fail("approx-filters-on-query", fap.qname, f"`{ast.unparse(n)}` compares an expression with itself",
                      where=f"{fap.module.relpath}:{n.lineno}", instance=ast.unparse(n))
     S = Fraction
-    base = [(S(100), 4), (S(100), 5), (S(100) + S(1, 10 ** 9), 5), (S(200), 5), (S(200), 4)]
-    queries = [(S(100), 4), (S(100), 5), (S(100), 6), (S(150), 5), (S(200), 5), (S(200) + S(1, 10 ** 10), 4)]
-    rtol, atol = S(1, 10 ** 5), S(1, 10 ** 10)
+    # the tolerances refer to the mu^2 values of the keys: points 1.5 rtol away (relative) or 1.5 atol away (absolute) are far
+    base = [(S(100), 4), (S(100), 5), (S(100) + S(1, 10 ** 9), 5), (S(200), 5), (S(200), 4), (S(100) + S(15, 10 ** 4), 5)]
+    queries = [(S(100), 4), (S(100), 5), (S(100), 6), (S(150), 5), (S(200), 5), (S(200) + S(1, 10 ** 10), 4), (S(100) + S(7, 10 ** 4), 5),
+               (S(200) + S(3, 10 ** 3), 4)]
     n_cases = 0
     n_bad = 0
-    for r in range(0, 4):
+    for rtol, atol in ((S(1, 10 ** 5), S(1, 10 ** 10)), (S(0), S(2, 10 ** 3))):
+      for r in range(0, 4):
         for store in itertools.combinations(base, r):
-            cache = {}
-            for (mu, nf) in store:
-                t = pe.instantiate(tcls.qname, [mu, nf])
-                cache[t] = None
-            inv = Obj(inv_cls)
-            inv.attrs.update(cache=cache, contentless=False)
-            eko = Obj(eko_cls)
-            eko.attrs.update(operators=inv)
-            for q in queries:
-                n_cases += 1
-                close = [p for p in store if p[1] == q[1] and abs(q[0] - p[0]) <= atol + rtol * abs(p[0])]
-                want = "error" if len(close) > 1 else (close[0] if close else None)
-                try:
-                    got = pe.apply(pe.getattr(eko, "approx"), [q, rtol, atol], {})
-                    if got is not None:
-                        got = (Fraction(got[0]), int(got[1]))
-                except PERaise as e:
-                    got = "error" if e.etype == "ValueError" else f"raises {e.etype}"
-                if got != want:
-                    n_bad += 1
-                    if n_bad <= 5:
-                        chk.fail("approx-unique-none-or-error", fap.qname,
-                                 f"store {[(str(a), b) for a, b in store]}, query ({q[0]}, {q[1]}): approx gives {got}, a map with "
-                                 f"tolerance lookup gives {want}", where=fap.where, instance=f"store={store},q={q}")
+              cache = {}
+              for (mu, nf) in store:
+                  t = pe.instantiate(tcls.qname, [mu, nf])
+                  cache[t] = None
+              inv = Obj(inv_cls)
+              inv.attrs.update(cache=cache, contentless=False)
+              eko = Obj(eko_cls)
+              eko.attrs.update(operators=inv)
+              for q in queries:
+                  n_cases += 1
+                  close = [p for p in store if p[1] == q[1] and abs(q[0] - p[0]) <= atol + rtol * abs(p[0])]
+                  want = "error" if len(close) > 1 else (close[0] if close else None)
+                  try:
+                      got = pe.apply(pe.getattr(eko, "approx"), [q, rtol, atol], {})
+                      if got is not None:
+                          got = (Fraction(got[0]), int(got[1]))
+                  except PERaise as e:
+                      got = "error" if e.etype == "ValueError" else f"raises {e.etype}"
+                  if got != want:
+                      n_bad += 1
+                      if n_bad <= 5:
+                          chk.fail("approx-unique-none-or-error", fap.qname,
+                                   f"store {[(str(a), b) for a, b in store]}, query ({q[0]}, {q[1]}), rtol={rtol}, atol={atol}: approx gives {got}, a map with "
+                                   f"tolerance lookup gives {want}", where=fap.where, instance=f"store={store},q={q},rtol={rtol},atol={atol}")
     if not n_bad:
         chk.ok("approx-unique-none-or-error", fap.qname, f"{n_cases} (store, query) cases", how="exhaustive PE")
     chk.floor("approx cases", n_cases, 100)
